@@ -27,6 +27,7 @@ class PropertySpec:
     technique: str = ''
     design_ref: str = ''
     _cache: Dict[str, Any] = field(default_factory=dict)
+    known_sigs: set = field(default_factory=set)
 
     def concretise(self, ob: dict) -> Optional[Tuple[str, dict]]:
         """Find a real failing input for an open obligation: run the bounded checks that exercise the same function
@@ -43,4 +44,6 @@ class PropertySpec:
                 j = v.to_json()
                 if v.obligation and v.obligation in ob['name']:
                     return chk.name, j
+                if best is None and j['sig'] not in self.known_sigs:
+                    best = (chk.name, j)      # a new violation found on the same function: the closest real input available
         return best
